@@ -1,5 +1,5 @@
 """C02 — every token the API builds verifies and round-trips (structural necessary conditions)."""
-from props import chain
+from props import chain, tablesym
 
 
 def check(fb, ctx):
@@ -24,5 +24,8 @@ def check(fb, ctx):
     chain.third_party_signer_rules(fb, ctx)
     chain.signature_version_rules(fb, ctx)
     chain.decode_gates(fb, ctx)
+    # a token whose in-memory symbol / key tables disagree with what its blocks declare does not reload (PublicKeyTableOverlap,
+    # unknown ids): the table threading of the append paths is part of 'every token the API builds deserializes'
+    tablesym.first_party_append_rules(fb, ctx)
     ctx.not_decided = ["byte-exact equality of to_vec(from(bytes)) (depends on prost's encoder)", "that dependency crates produce valid signatures"]
     ctx.trusted = ["oracle/signature_layout.json", "prost encode/decode", "rustc MIR"]
